@@ -81,6 +81,15 @@ theorem strong_agree : ∀ (e : FExpr) (ev : Event), whyStrong e ev = none →
         obtain ⟨b, hb⟩ := isBoolResult_iff hb
         rw [hb]; simp
       · cases h
+  | other op l r =>
+    intro h
+    simp only [whyStrong] at h
+    simp only [toPred, evalP]
+    split at h
+    · rename_i hb
+      obtain ⟨b, hb⟩ := isBoolResult_iff hb
+      rw [hb]; simp
+    · cases h
   | atom o =>
     intro h
     simp only [whyStrong] at h
@@ -136,6 +145,7 @@ theorem weak_agree : ∀ (e : FExpr) (ev : Event), whyWeak e ev = none →
         simp only [hx] at h
         simp only [cmp_weak op x v (compareValue_kind hcv) h]
     | none => simp only [toPred, hp, evalP]
+  | other op l r => intro _; simp only [toPred, evalP]
   | atom o => intro _; simp only [toPred, evalP]
   | and a b iha ihb =>
     intro h
